@@ -33,7 +33,7 @@ class PSet:
                              [self.paths[n] for n in names], self.input_fs())
 
 
-NAMES = ["a.dat", "b.bin", "sub/c.txt", "sub/deep/d", "e e.x", "f[1].dat", "g", "h.par2.txt"]
+NAMES = ["a.dat", "b.bin", "sub/c.txt", "sub/deep/d", "e e.x", "f[1].dat", "g", "h.par2.txt", "report..final.txt", "v1..v2/diff.txt"]
 
 
 def gen_set(rng, slice_choices=(4, 8, 12, 64), maxfiles=5, big=False, kinds=None, nparity=None, sizes=None):
